@@ -2,7 +2,7 @@
    The Gallina definitions in model/Iterate.v and model/Implicit.v ARE the independent dense reference
    (index-wise sums over lists, no sparse formats); they are tied to pygradflow by exact correspondence.
    The theorems below tie the definitions to their mathematical meaning and to each other. *)
-From Verif Require Import Iterate Implicit VecLemmas IterateProofs ImplicitProofs KKTProofs.
+From Verif Require Import Iterate Implicit VecLemmas IterateProofs ImplicitProofs KKTProofs ProjProofs.
 
 (* 1. the projection used in the residual: clipped components land in [lb, ub], components marked
       inactive are untouched, and a point already inside is not moved *)
@@ -23,6 +23,17 @@ Theorem C13_projection_identity_on_inactive : forall p lb ub act j,
 Proof. exact project_id_inactive. Qed.
 Theorem C13_clip_identity_inside : forall p l u, lb_le l p = true -> le_ub p u = true -> clip_b p l u == p.
 Proof. exact clip_b_inside. Qed.
+
+(* 1b. the clipping IS the Euclidean projection onto the (non-empty) box: idempotent, no point of the box is
+       closer to p than the clipped value, and clipping never increases the distance between two points *)
+Theorem C13_projection_idempotent : forall p l u, bnd_le l u = true -> clip_b (clip_b p l u) l u == clip_b p l u.
+Proof. exact clip_b_idem. Qed.
+Theorem C13_projection_is_nearest_point : forall p l u z,
+  bnd_le l u = true -> lb_le l z = true -> le_ub z u = true -> qabs (clip_b p l u - p) <= qabs (z - p).
+Proof. exact clip_b_nearest. Qed.
+Theorem C13_projection_nonexpansive : forall p q l u, bnd_le l u = true ->
+  qabs (clip_b p l u - clip_b q l u) <= qabs (p - q).
+Proof. exact clip_b_nonexpansive. Qed.
 
 (* 2. the active-set rule marks only components outside the box by more than 1e-8 *)
 Theorem C13_unmarked_is_nearly_inside : forall p l u, outside1 p l u = false ->
@@ -90,3 +101,6 @@ Print Assumptions C13_bound_dual_signs.
 Print Assumptions C13_stationarity_characterisation.
 Print Assumptions C13_total_res_parts.
 Print Assumptions C13_stat_res_component.
+Print Assumptions C13_projection_idempotent.
+Print Assumptions C13_projection_is_nearest_point.
+Print Assumptions C13_projection_nonexpansive.
